@@ -1,5 +1,8 @@
 """Translator for C02 (proof tier): the smallest shipped angular tables -> Gen/AngularData/*.lean.
 
+(Round 3: the tables with COST_DIRECT < cost <= COST_MAX are carried too, with the statement split into one
+kernel-decided theorem per first exponent -- see `render_sliced`.)
+
 For every data file named by the degree tables of grid/angular.py whose exhaustive monomial check
 costs at most COST_MAX node-monomial pairs (size * C(degree+3, 3)), the arrays `points` and
 `weights` are read from the .npz file *as the loader of AngularGrid reads them* (a weights array of
@@ -22,7 +25,14 @@ import numpy as np
 from ..common import SRC
 from .util import HEADER, write_if_changed, GEN
 
-COST_MAX = 26000          # lebedev <= 11 (50 points), spherical <= 11 (70), maxdet <= 9 (100): <= 1.3 GB and 20 s each in the kernel
+COST_DIRECT = 26000       # lebedev <= 11 (50 points), spherical <= 11 (70), maxdet <= 9 (100): one direct statement, <= 1.3 GB and 20 s each in the kernel
+COST_MAX = {"lebedev": 126000, "spherical": 80000, "maxdet": 80000, "ahrens_beylkin": 80000}
+                          # round 3: up to here (lebedev <= 17 / 110 points, spherical <= 13 / 94, maxdet <= 12 / 169, ahrens_beylkin 14 / 72)
+                          # the check is stated slice by slice (one kernel-decided theorem per first exponent, per-node moments by
+                          # iterated multiplication: Model/SphereQuad.lean `sliceOkUnit` / `sliceOk4pi`): <= 1.6 GB and <= 50 s of CPU per
+                          # file.  The Lebedev tables are cheaper per node-monomial pair (octahedral orbits: many zero and repeated
+                          # coordinates, which the kernel's cache shares); measured: lebedev_17_110 34 s, maxdet_12_169 47 s,
+                          # spherical_15_120 63 s, maxdet_13_196 70 s (the last two are therefore not carried)
 TOL_INV = 10 ** 13
 
 METHODS = [("lebedev", "LEBEDEV", "lebedev", "Unit"), ("spherical", "SPHERICAL", "spherical_design", "Unit"),
@@ -45,7 +55,7 @@ def selected():
         for deg, size in degs.items():
             deg, size = int(deg), int(size)
             cost = size * (deg + 1) * (deg + 2) * (deg + 3) // 6
-            if cost <= COST_MAX:
+            if cost <= COST_MAX[meth]:
                 out.append((meth, d, kind, deg, size))
     return out
 
@@ -67,6 +77,8 @@ def render_one(meth, d, kind, deg, size):
     rows = ",\n  ".join(f"({Wi[i]}, {Pi[3 * i]}, {Pi[3 * i + 1]}, {Pi[3 * i + 2]})" for i in range(len(W)))
     name = camel(meth, deg, size)
     ok = "allOkUnit" if kind == "Unit" else "allOk4pi"
+    if size * (deg + 1) * (deg + 2) * (deg + 3) // 6 > COST_DIRECT:
+        return name, render_sliced(meth, d, kind, deg, size, name, kp, kw, rows)
     return name, "\n".join([
         HEADER.format(name="angular_data", source=f"src/grid/data/{d}/{meth}_{deg}_{size}.npz"),
         "import GridVerif.Model.SphereQuad\n",
@@ -83,6 +95,35 @@ def render_one(meth, d, kind, deg, size):
         "set_option maxRecDepth 100000 in",
         f"theorem on_sphere : onSphere table {TOL_INV} = true := by decide +kernel\n",
         f"end GridVerif.Gen.AngularData.{name}\n"])
+
+
+def render_sliced(meth, d, kind, deg, size, name, kp, kw, rows):
+    """The larger tables: one kernel-decided statement per first exponent a (`slice_a`), collected by `slices`;
+    Props/C02/Slice.lean proves that the slices together are `allOkUnit` / `allOk4pi`."""
+    ok = "sliceOkUnit" if kind == "Unit" else "sliceOk4pi"
+    out = [
+        HEADER.format(name="angular_data", source=f"src/grid/data/{d}/{meth}_{deg}_{size}.npz"),
+        "import GridVerif.Model.SphereQuad\n",
+        f"namespace GridVerif.Gen.AngularData.{name}",
+        "open GridVerif.SphereQuad\n",
+        f"/-- `{meth}_{deg}_{size}.npz` as loaded by `AngularGrid._load_precomputed_angular_grid`: {size} nodes, exact. -/",
+        f"def table : Table := ⟨{kp}, {kw}, [\n  {rows}]⟩\n",
+        f"def degree : Nat := {deg}",
+        f"def size : Nat := {size}\n",
+        f"theorem size_eq : table.pts.length = size := by decide +kernel\n",
+        f"/-! every monomial `x^a y^b z^c` of degree ≤ {deg} is integrated to 1e-13 by the shipped table (kernel evaluation, exact",
+        f"integers), one statement per first exponent `a`. -/\n"]
+    for a in range(deg + 1):
+        out += ["set_option maxRecDepth 100000 in",
+                f"theorem slice_{a} : {ok} table degree {TOL_INV} {a} = true := by decide +kernel\n"]
+    out += [f"/-- all slices: every monomial of degree ≤ {deg}. -/",
+            f"theorem slices : ∀ a, a ≤ degree → {ok} table degree {TOL_INV} a = true"]
+    out += [f"  | {a}, _ => slice_{a}" for a in range(deg + 1)]
+    out += [f"  | (n + {deg + 1}), h => by unfold degree at h; omega\n",
+            "set_option maxRecDepth 100000 in",
+            f"theorem on_sphere : onSphere table {TOL_INV} = true := by decide +kernel\n",
+            f"end GridVerif.Gen.AngularData.{name}\n"]
+    return "\n".join(out)
 
 
 def generate():
